@@ -358,20 +358,7 @@ class Engine:
             self.stmts_modelled.add(stmt.lineno)
             for s_out, _ in res:
                 s_out.forced = {}
-            ga = self.c.get('ghost_after')
-            if ga and not isinstance(stmt, (ast.If, ast.For, ast.While, ast.Try)) and not st.spec:
-                src = ga.get(ast.unparse(stmt))
-                if src:
-                    self.ghost_hits.add(ast.unparse(stmt))
-                    for s_out, o in res:
-                        if o[0] == NORMAL:
-                            for gsrc in src:
-                                for g in ast.parse(gsrc).body:
-                                    s_out.spec = True
-                                    try:
-                                        self._exec_stmt(s_out, g)
-                                    finally:
-                                        s_out.spec = False
+            self._run_ghost_after(st, stmt, res)
             return res
         except ForkReq as f:
             del self.obligations[n_obl:]
@@ -388,6 +375,12 @@ class Engine:
             return [(work, (RAISE, r.exc, stmt))]
         except Unsupported as u:
             del self.obligations[n_obl:]
+            if self.c.get('lenient') and isinstance(stmt, ast.Assert):
+                # lenient contract: an assert whose condition is outside the modelled subset binds nothing; it either raises AssertionError
+                # (an exit the lenient contracts do not speak about) or continues: nothing is learned from it
+                self.lenient_skips.append((stmt.lineno, f'assert not evaluated: {u}'))
+                self.stmts_modelled.add(stmt.lineno)
+                return [(st.clone(), (NORMAL,))]
             if self.c.get('lenient') and isinstance(stmt, (ast.Assign, ast.AugAssign, ast.AnnAssign, ast.Expr)) \
                     and not any(isinstance(n, (ast.Yield, ast.YieldFrom)) for n in ast.walk(stmt)):
                 # lenient contract (stated in the contract): a simple statement outside the modelled subset is over-approximated --
@@ -400,7 +393,9 @@ class Engine:
                     s2.env[n] = VUnknown(f'{n}: havocked by unmodelled statement at L{stmt.lineno}')
                 self.lenient_skips.append((stmt.lineno, str(u)))
                 self.stmts_modelled.add(stmt.lineno)
-                return [(s2, (NORMAL,))]
+                res = [(s2, (NORMAL,))]
+                self._run_ghost_after(st, stmt, res)      # ghost code anchored at a skipped statement still runs (it only reads protected state)
+                return res
             self.unsupported.append((stmt.lineno, str(u)))
             return []     # path abandoned (recorded: makes the function's verdict "undecided")
 
@@ -444,7 +439,11 @@ class Engine:
         if isinstance(stmt, ast.Assert):
             # `assert isinstance(..)  # for mypy` lines: kept as obligations (they do run)
             g = self.ev_cond(stmt.test, st)
-            self.oblige(st, g, f'assert@L{stmt.lineno}', 'assert', stmt)
+            if self.c.get('lenient') and not st.spec:
+                # lenient contract: an assert of the program is an exit (AssertionError) these contracts do not speak about; past it the condition holds
+                self.lenient_skips.append((stmt.lineno, 'program assert assumed past this point (AssertionError exit not covered)'))
+            else:
+                self.oblige(st, g, f'assert@L{stmt.lineno}', 'assert', stmt)
             st.pc.append(g)
             return [(st, (NORMAL,))]
         if isinstance(stmt, ast.If):
@@ -467,8 +466,32 @@ class Engine:
             return [(st, (NORMAL,))]
         raise Unsupported(f'statement {type(stmt).__name__}')
 
+    def _run_ghost_after(self, st, stmt, res):
+        ga = self.c.get('ghost_after')
+        if ga and not isinstance(stmt, (ast.If, ast.For, ast.While, ast.Try)) and not st.spec:
+            src = ga.get(ast.unparse(stmt))
+            if src:
+                self.ghost_hits.add(ast.unparse(stmt))
+                for s_out, o in res:
+                    if o[0] == NORMAL:
+                        for gsrc in src:
+                            for g in ast.parse(gsrc).body:
+                                s_out.spec = True
+                                try:
+                                    self._exec_stmt(s_out, g)
+                                finally:
+                                    s_out.spec = False
+
     def do_if(self, st, stmt):
-        c = self.ev_cond(stmt.test, st)
+        try:
+            c = self.ev_cond(stmt.test, st)
+        except Unsupported as u:
+            if not self.c.get('lenient'):
+                raise
+            # lenient contract: a branch condition outside the modelled subset is a nondeterministic choice (both branches, nothing learned)
+            self.lenient_skips.append((stmt.lineno, f'branch condition not modelled: {u}'))
+            st.tainted = True
+            c = z3.Bool(fresh_name('unk_cond'))
         d = self.decide(st, c)
         out = []
         if d is not False:
@@ -605,7 +628,14 @@ class Engine:
                 out.extend(self.exec_block(s_, stmt.orelse) if stmt.orelse else [(s_, (NORMAL,))])
             return out
         k, spec = self.loop_spec(stmt)
-        it = self.ev(stmt.iter, st)
+        try:
+            it = self.ev(stmt.iter, st)
+        except Unsupported as u:
+            if not self.c.get('lenient'):
+                raise
+            # lenient contract: an iterable expression outside the modelled subset = unknown length, unknown elements
+            self.lenient_skips.append((stmt.lineno, f'loop iterable not modelled: {u}'))
+            it = VUnknown(f'unmodelled iterable at L{stmt.lineno}')
         seq = self.as_sequence(it, st)          # (length z3 Int, getter(idx)->V)
         ivar = spec.get('index', f'_i{k}')
         iter_roots = {n.id for n in ast.walk(stmt.iter) if isinstance(n, ast.Name)}
@@ -778,6 +808,13 @@ class Engine:
                     raise Unsupported('unpack arity')
                 for t, v in zip(tgt.elts, val.items):
                     self.assign(st, t, v, None)
+                return
+            if isinstance(val, VUnknown) and self.c.get('lenient'):
+                for t in tgt.elts:       # lenient contract: unpacking an unknown value binds unknown values (protected names may not be bound this way)
+                    for n_ in ast.walk(t):
+                        if isinstance(n_, ast.Name) and n_.id in self.c.get('lenient_protect', ()):
+                            raise Unsupported(f'unpack of an unknown value into protected name {n_.id}')
+                    self.assign(st, t, VUnknown('component of an unknown value'), None)
                 return
             raise Unsupported(f'unpack of {val!r}')
         if isinstance(tgt, ast.Attribute):
